@@ -562,7 +562,7 @@ func c02RoundTrip(p *Prog, r *Report) {
 // ---------------------------------------------------------------- R5 clamp
 
 func c02Clamp(p *Prog, r *Report) {
-	r.Rule("C02.R5", "the non-negativity clamp of the transport update flags instability: the arm that stores 0 tests the value against the (negative) threshold and sets both flags", 1)
+	r.Rule("C02.R5", "the non-negativity clamp of the transport update flags instability: the arm that stores 0 tests the value against the (negative) threshold and sets both flags; the tested value is the quantity the sibling arm stores into C1 (same units as the threshold)", 2)
 	x := nmoveWalk(p)
 	if x == nil {
 		return
@@ -621,6 +621,25 @@ func c02Clamp(p *Prog, r *Report) {
 		}
 		ok := flags["GlobalVarsMain.C1NotStable"] && flags["GlobalVarsMain.C1NotStableErr"] && neg
 		r.Ob("clamp-flags", p.Pos(e.Pos), ok, fmt.Sprintf("clamp arm sets flags %v under 'value < C1stabilityVal'; threshold constant negative: %v", keysOf(flags), neg))
+		// the threshold is an amount of N (kg N/ha, like C1): the value that is tested against it must be the
+		// very quantity the sibling arm stores into C1[z] — a value in other units (a concentration) is smaller
+		// by orders of magnitude and can never reach the threshold
+		var sib *Event
+		for _, f := range x.Events {
+			if f.Kind == "assign" && f.Root == "GlobalVarsMain.C1" && f != e && f.InLoop(L) && len(f.Idx) == 1 && f.Idx[0].Equal(e.Idx[0]) && !f.Val.IsZero() {
+				for _, g := range flattenGuards(f.Guards) {
+					if g.Kind == "cmp" && g.P.MentionsRoot("NitroSharedVars.KONV") {
+						sib = f
+					}
+				}
+			}
+		}
+		if sib == nil {
+			r.Ob("clamp-units", p.Pos(e.Pos), false, "no sibling arm stores the non-negative transport result into C1[z]")
+		} else {
+			same := stripVersions(sib.Val).Equal(stripVersions(val))
+			r.Ob("clamp-units", p.Pos(sib.Pos), same, fmt.Sprintf("the value tested against 0 and against the threshold is %s; the value stored into C1[z] is %s: must be the same quantity (same units as the threshold)", clip(stripVersions(val).String(), 90), clip(stripVersions(sib.Val).String(), 90)))
+		}
 		return
 	}
 	r.Ob("clamp-flags", "-", false, "no clamp 'C1[z] = 0 when the transported value is negative' found")
